@@ -9,6 +9,7 @@ epoch; the drop notification carries only the id).
 import Penguin.Model.Mux
 import Penguin.Lemmas.MuxBasic
 import Penguin.Lemmas.MuxStep
+import Penguin.Lemmas.PairCor
 
 namespace Penguin.C06
 open Penguin Penguin.Mux
@@ -129,6 +130,102 @@ theorem stale_reset_cancels_new_request_full_fails :
                     opens := [{ req := 1, host := [], port := 80, retriesLeft := 2 }] }
     lookup (settle e).1.flows 9 = none ∧ (settle e).2 = [.wire (.frame (.connect 10 4 80 []))] := by
   decide
+
+/-! #### The pair: two endpoints and the wires, every interleaving (`Model/Pair.lean`)
+
+`x ∈ p.linked` says the handshake of flow `x` completed at some point of the run; `lookup p.a.flows x
+= none` says endpoint `a` has since let go of it — by abort (its application dropped the stream), by
+finishing and dropping it, or because the peer's `Reset` arrived. -/
+
+open Penguin.Mux Penguin.Pair in
+/-- Abort is clean for the peer's reader, in every reachable state of every interleaving: after `a`
+    let go of flow `x`, what `b`'s application has read is a prefix of what `a`'s application wrote,
+    and every byte `a` wrote before letting go is accounted for — read, buffered, queued at `b`, or
+    still in flight ahead of the end marker.  (Holds as long as `b`'s application still observes its
+    stream: the handle's receiving half is open, or it has read end-of-stream.) -/
+theorem pair_abort_reads_are_prefix {oa ob : Opts} {ra rb : List Nat} (c : Cfg oa ob ra rb) (as : List (Pair.Side × Pair.Act))
+    {x : Nat} (hx : x ∈ (Pair.run (Pair.init oa ob ra rb) as).linked)
+    (hrel : lookup (Pair.run (Pair.init oa ob ra rb) as).a.flows x = none) :
+    let p := Pair.run (Pair.init oa ob ra rb) as
+    ∃ i j oB, p.b.objs[j]? = some oB ∧ oB.fid = x ∧ (∀ k o, p.a.objs[k]? = some o → o.fid = x → k = i) ∧
+      (observed p.b p.gb j = true →
+        p.gb.rlog j <+: p.ga.wlog i ∧
+        p.gb.rlog j ++ oB.buf ++ oB.rxq.flatten ++
+          (Link.pushes (if oB.senderAlive then cutEnd ((fl x (pathAB p)).filterMap toItem) else [])).flatten = p.ga.wlog i) :=
+  released_bytes (reach_inv c as) hx hrel
+
+open Penguin.Mux Penguin.Pair in
+/-- … and with the roles of the endpoints exchanged. -/
+theorem pair_abort_reads_are_prefix_rev {oa ob : Opts} {ra rb : List Nat} (c : Cfg oa ob ra rb) (as : List (Pair.Side × Pair.Act))
+    {x : Nat} (hx : x ∈ (Pair.run (Pair.init oa ob ra rb) as).linked)
+    (hrel : lookup (Pair.run (Pair.init oa ob ra rb) as).b.flows x = none) :
+    let p := Pair.run (Pair.init oa ob ra rb) as
+    ∃ j i oA, p.a.objs[i]? = some oA ∧ oA.fid = x ∧ (∀ k o, p.b.objs[k]? = some o → o.fid = x → k = j) ∧
+      (observed p.a p.ga i = true →
+        p.ga.rlog i <+: p.gb.wlog j ∧
+        p.ga.rlog i ++ oA.buf ++ oA.rxq.flatten ++
+          (Link.pushes (if oA.senderAlive then cutEnd ((fl x (pathBA p)).filterMap toItem) else [])).flatten = p.gb.wlog j) :=
+  released_bytes (p := (Pair.run (Pair.init oa ob ra rb) as).swap) (reach_inv c as).swap hx hrel
+
+open Penguin.Mux Penguin.Pair in
+/-- When the peer's application reads end-of-stream after `a` let go of the flow, it has read
+    exactly the bytes `a`'s application wrote on it: what had been written is delivered before
+    end-of-stream, nothing is lost and nothing invented, whatever frames were in flight. -/
+theorem pair_abort_then_eof_is_exact {oa ob : Opts} {ra rb : List Nat} (c : Cfg oa ob ra rb) (as : List (Pair.Side × Pair.Act))
+    {x : Nat} (hx : x ∈ (Pair.run (Pair.init oa ob ra rb) as).linked)
+    (hrel : lookup (Pair.run (Pair.init oa ob ra rb) as).a.flows x = none) :
+    let p := Pair.run (Pair.init oa ob ra rb) as
+    ∃ i j, (∀ k o, p.a.objs[k]? = some o → o.fid = x → k = i) ∧ (∀ k o, p.b.objs[k]? = some o → o.fid = x → k = j) ∧
+      (p.gb.eof j = true → p.gb.rlog j = p.ga.wlog i) :=
+  released_eof (reach_inv c as) hx hrel
+
+open Penguin.Mux Penguin.Pair in
+/-- … and with the roles of the endpoints exchanged. -/
+theorem pair_abort_then_eof_is_exact_rev {oa ob : Opts} {ra rb : List Nat} (c : Cfg oa ob ra rb) (as : List (Pair.Side × Pair.Act))
+    {x : Nat} (hx : x ∈ (Pair.run (Pair.init oa ob ra rb) as).linked)
+    (hrel : lookup (Pair.run (Pair.init oa ob ra rb) as).b.flows x = none) :
+    let p := Pair.run (Pair.init oa ob ra rb) as
+    ∃ j i, (∀ k o, p.b.objs[k]? = some o → o.fid = x → k = j) ∧ (∀ k o, p.a.objs[k]? = some o → o.fid = x → k = i) ∧
+      (p.ga.eof i = true → p.ga.rlog i = p.gb.wlog j) :=
+  released_eof (p := (Pair.run (Pair.init oa ob ra rb) as).swap) (reach_inv c as).swap hx hrel
+
+open Penguin.Mux Penguin.Pair in
+/-- Once an endpoint has let go of a flow — its own application aborted it, or the peer's `Reset`
+    arrived — a write on a handle of that stream fails with BrokenPipe and transmits nothing. -/
+theorem pair_released_write_fails {oa ob : Opts} {ra rb : List Nat} (c : Cfg oa ob ra rb) (as : List (Pair.Side × Pair.Act))
+    {x : Nat} (hx : x ∈ (Pair.run (Pair.init oa ob ra rb) as).linked)
+    (hrel : lookup (Pair.run (Pair.init oa ob ra rb) as).a.flows x = none)
+    (hd i : Nat) (o : Obj) (d : Bytes) (hh : (Pair.run (Pair.init oa ob ra rb) as).a.handleObj hd = some (i, o)) (hf : o.fid = x) :
+    let p := Pair.run (Pair.init oa ob ra rb) as
+    (appWrite p.a hd d).2 = .brokenPipe ∧ (appWrite p.a hd d).1.outq = p.a.outq :=
+  released_write_fails (reach_inv c as) hx hrel hd i o d hh hf
+
+open Penguin.Mux Penguin.Pair in
+/-- … at the other endpoint (e.g. the peer of an abort, once the `Reset` has been processed). -/
+theorem pair_released_write_fails_rev {oa ob : Opts} {ra rb : List Nat} (c : Cfg oa ob ra rb) (as : List (Pair.Side × Pair.Act))
+    {x : Nat} (hx : x ∈ (Pair.run (Pair.init oa ob ra rb) as).linked)
+    (hrel : lookup (Pair.run (Pair.init oa ob ra rb) as).b.flows x = none)
+    (hd j : Nat) (o : Obj) (d : Bytes) (hh : (Pair.run (Pair.init oa ob ra rb) as).b.handleObj hd = some (j, o)) (hf : o.fid = x) :
+    let p := Pair.run (Pair.init oa ob ra rb) as
+    (appWrite p.b hd d).2 = .brokenPipe ∧ (appWrite p.b hd d).1.outq = p.b.outq :=
+  released_write_fails (p := (Pair.run (Pair.init oa ob ra rb) as).swap) (reach_inv c as).swap hx hrel hd j o d hh hf
+
+/-! Non-vacuity of the pair theorems: a run (windows 2, threshold 1) that opens a stream, writes
+    three bytes (two fit the window), and then drops the stream without shutting it down; the peer
+    processes the `Push` and the `Reset`, reads the two bytes and then end-of-stream, and its own
+    write fails. -/
+private def pcfg : Mux.Opts := { rwnd := 2, threshold := 1 }
+private def pacts : List (Pair.Side × Pair.Act) :=
+  [(.A, .open 1 [104] 80), (.A, .xmit), (.B, .recv), (.B, .xmit), (.A, .recv), (.A, .runDone), (.B, .accept),
+   (.A, .write 0 [1, 2]), (.A, .xmit), (.A, .dropStream 0), (.A, .notif), (.A, .xmit),
+   (.B, .recv), (.B, .read 0 9), (.B, .recv), (.B, .read 0 9)]
+example : Pair.Cfg pcfg pcfg [7, 8] [9, 10] := ⟨by decide, by decide, by decide, by decide⟩
+example : 7 ∈ (Pair.run (Pair.init pcfg pcfg [7, 8] [9, 10]) pacts).linked := by decide
+example : Mux.lookup (Pair.run (Pair.init pcfg pcfg [7, 8] [9, 10]) pacts).a.flows 7 = none := by decide
+example : Mux.lookup (Pair.run (Pair.init pcfg pcfg [7, 8] [9, 10]) pacts).b.flows 7 = none := by decide
+example : (Pair.run (Pair.init pcfg pcfg [7, 8] [9, 10]) pacts).gb.eof 0 = true ∧
+    (Pair.run (Pair.init pcfg pcfg [7, 8] [9, 10]) pacts).gb.rlog 0 = [1, 2] := by decide
+example : (Mux.appWrite (Pair.run (Pair.init pcfg pcfg [7, 8] [9, 10]) pacts).b 0 [5]).2 = .brokenPipe := by decide
 
 /-! Non-vacuity -/
 example : (closeFlow { opts := {}, flows := [(5, .established 0)],
